@@ -36,7 +36,8 @@ COMPONENTS = {"real": ["twisted.conch.telnet.Telnet.will/wont/do/dont", "twisted
               "stub": ["TCP byte streams in both directions (detsim.net.Link): per-direction FIFO, tape-chosen direction and segment size",
                        "application policy enableLocal/enableRemote (accepts what the endpoint itself requests plus a tape-chosen subset)"]}
 RULE = ("run = up to 10 will/wont/do/dont requests by either side over 1-3 options, interleaved with tape-chosen network events "
-        "(move written bytes onto the wire / deliver 1..all bytes to one side) and occasional application bytes, then a drain; "
+        "(move written bytes onto the wire / deliver 1..all bytes to one side) and occasional application bytes, a fifth of the requests followed by a re-entrant "
+        "request about the same option issued from inside the first one's Deferred callback, then a drain; "
         "non-trivial = at least two requests went onto the wire AND negotiation bytes were in flight in both directions at the same time")
 ASSUMPTIONS = ["an endpoint requests will(o)/do(o) only for options its own enableLocal/enableRemote accepts (per the statement)",
                "the connection is not lost during the run; each direction is reliable and FIFO"]
@@ -141,7 +142,7 @@ def run(sim):
 
     requests = []      # dicts: side, kind, opt, results[]
     app_sent = {"A": bytearray(), "B": bytearray()}
-    flags = {"sent": 0, "crossing": 0}
+    flags = {"sent": 0, "crossing": 0, "reentrant": 0}
 
     def bound():
         # a request puts one command on the wire and its peer answers with at most
@@ -159,9 +160,7 @@ def run(sim):
                   lambda: "%d negotiation commands on the wire for %d requests that reached the wire (bound %d); A wrote %r B wrote %r"
                   % (n, flags["sent"], bound(), bytes(link.a.written[-30:]), bytes(link.b.written[-30:])))
 
-    def do_request():
-        e = sim.draw_choice(ends, "side")
-        o = sim.draw_choice(opts, "opt")
+    def pick_kind(e, o, label):
         kinds = []
         # enable requests only for options the endpoint's own policy accepts
         for k in KINDS:
@@ -180,13 +179,23 @@ def run(sim):
             if k == "dont" and not e.told_remote.get(o):
                 w = 1
             kinds.append((k, w))
-        k = sim.draw_weighted(kinds, "kind")
+        return sim.draw_weighted(kinds, label)
+
+    def do_request():
+        e = sim.draw_choice(ends, "side")
+        o = sim.draw_choice(opts, "opt")
+        issue(e, pick_kind(e, o, "kind"), o, sim.draw_bool(0.2, "followup"))
+
+    def issue(e, k, o, followup):
+        """Issue one request.  followup: when its Deferred fires, issue another request about the same option from inside
+        the callback (an application that re-enables as soon as a disable is acknowledged, and the like)."""
         r = {"side": e.name, "kind": k, "opt": o, "results": []}
         idx = len(requests)
         requests.append(r)
         before = _ncommands(trans[e.name])
         with sim.guard("request-raised", k):
             d = getattr(e, k)(o)
+        went = _ncommands(trans[e.name]) - before    # measured before a re-entrant follow-up can add its own command
 
         def fired(res, r=r, idx=idx):
             if isinstance(res, Failure):
@@ -200,14 +209,17 @@ def run(sim):
                           "request #%d %s.%s failed with %s: %s" % (idx, r["side"], r["kind"], res.type.__name__, res.getErrorMessage()))
             else:
                 sim.check("outcome-kind", res is True, r["kind"], "request #%d fired with %r" % (idx, res))
+            if followup and len(r["results"]) == 1 and len(requests) < nreq + 4:
+                sim.probe("reentrant_request")
+                flags["reentrant"] += 1
+                issue(e, pick_kind(e, o, "followup_kind"), o, False)
             return None
 
         d.addBoth(fired)
-        went = _ncommands(trans[e.name]) - before
         r["wire"] = went
         sim.event("request", idx, e.name, k, ONAME[o], "wire" if went else "immediate:" + ",".join(r["results"]))
         if went:
-            flags["sent"] += 1
+            flags["sent"] += went
         else:
             sim.probe("immediate_" + (r["results"][0] if r["results"] else "none"))
             # a request that put nothing on the wire has nothing to wait for
